@@ -68,9 +68,38 @@ def src_key(srcfull, idx):
     return w * len(idx) + idx[sid]
 
 
+def is_mirror(eid): return isinstance(eid, str) and eid.startswith('m')
+
+
+def mirror_diffs(inputs):
+    """entities m1, m2, ... of a simulator are connected exactly like its entity e (to the entities of the same index):
+    what each of them is given must be what e is given, with its own index in the source ids and value tokens"""
+    def norm(eid, attrs):
+        suf = '' if eid == 'e' else '#' + eid
+        out = {}
+        for a, m in attrs.items():
+            for srcfull, v in m.items():
+                sid_, seid = srcfull.split('.', 1)
+                if seid.startswith('a') or str(v).startswith('set'): continue           # set_data goes to entity e only
+                if seid != eid: return None
+                if isinstance(v, str) and '@' in v and not v.startswith('init'):
+                    if suf and not v.endswith(suf): return None
+                    if suf: v = v[:-len(suf)]
+                out[(a, sid_)] = v
+        return out
+    base = norm('e', inputs.get('e', {}))
+    bad = []
+    for eid in inputs:
+        if is_mirror(eid):
+            got = norm(eid, inputs[eid])
+            if got != base: bad.append((eid, inputs[eid], inputs.get('e', {})))
+    return bad
+
+
 def canon_inputs(inputs, idx, tok):
     trip = []
     for eid, attrs in inputs.items():
+        if is_mirror(eid): continue
         for a, m in attrs.items():
             for srcfull, v in m.items():
                 trip.append((ATTR[a], src_key(srcfull, idx), None if v is None else tok(v)))
@@ -149,14 +178,20 @@ def impl_dump(run, idx, tok):
         for k, d in sim.input_delays.items(): out.append(f"indel {i} {idx[k.sid]} {simlib.iv(d)}")
         for j, d in sim.successors.items(): out.append(f"succ {i} {idx[j.sid]} {simlib.iv(d)}")
         for j, d in sim.successors_to_wait_for.items(): out.append(f"succw {i} {idx[j.sid]} {simlib.iv(d)}")
+        # (mirror entities 'm<k>' repeat the data-flow of entity 'e'; the model has one entity per simulator)
         for p, dests in sim.triggers.items():
+            if is_mirror(p[0]): continue
             for dest, d in dests: out.append(f"trig {i} {ATTR[p[1]]} {idx[dest.sid]} {simlib.iv(d)}")
         for (eid, a), dests in sim.output_to_push.items():
+            if is_mirror(eid): continue
             for (dest, sh, (deid, da)) in dests: out.append(f"push {i} {ATTR[a]} {idx[dest.sid]} {simlib.iv(sh)} {ATTR[da]}")
         for (src, delay), flows in sim.pulled_inputs.items():
-            for (sp, dp) in flows: out.append(f"pull {i} {idx[src.sid]} {simlib.iv(delay)} {ATTR[sp[1]]} {ATTR[dp[1]]}")
+            for (sp, dp) in flows:
+                if is_mirror(sp[0]): continue
+                out.append(f"pull {i} {idx[src.sid]} {simlib.iv(delay)} {ATTR[sp[1]]} {ATTR[dp[1]]}")
         if sim.output_request: out.append(f"outreq {i}")
         for eid, attrs in run.init_persist.get(s, {}).items():
+            if is_mirror(eid): continue
             for a, m in attrs.items():
                 for srcfull, v in m.items():
                     out.append(f"pers {i} {ATTR[a]} {idx[srcfull.split('.')[0]]} {'N' if v is None else tok(v)}")
@@ -178,20 +213,24 @@ def static_lines(run, case, lazy, cache, tok):
         for k, d in sim.input_delays.items(): L.append(f"S_INDEL {i} {idx[k.sid]} {simlib.iv(d)}")
         for j, d in sim.successors.items(): L.append(f"S_SUCC {i} {idx[j.sid]} {simlib.iv(d)}")
         for j, d in sim.successors_to_wait_for.items(): L.append(f"S_SUCCW {i} {idx[j.sid]} {simlib.iv(d)}")
-        ports[s] = {p: ATTR[p[1]] for p in sim.triggers}
+        ports[s] = {p: ATTR[p[1]] for p in sim.triggers if not is_mirror(p[0])}
         for p, dests in sim.triggers.items():
+            if is_mirror(p[0]): continue
             for dest, d in dests: L.append(f"S_TRIG {i} {ports[s][p]} {idx[dest.sid]} {simlib.iv(d)}")
         for a, d in sim.triggering_ancestors.items(): L.append(f"S_ANC {i} {idx[a.sid]} {simlib.iv(d)}")
         for (src, delay), flows in sim.pulled_inputs.items():
             for (sp, dp) in sorted(flows):
+                if is_mirror(sp[0]): continue
                 L.append(f"S_PULL {i} {idx[src.sid]} {delay.tiers[0]} {ATTR[sp[1]]} {ATTR[dp[1]]}")
         for (eid, a), dests in sim.output_to_push.items():
+            if is_mirror(eid): continue
             for (dest, sh, (deid, da)) in dests:
                 L.append(f"S_PUSH {i} {ATTR[a]} {idx[dest.sid]} {sh.tiers[0]} {ATTR[da]}")
         if run.init_outputs.get(s):
             for t, dd in run.init_outputs[s].items():
                 L.append(f"S_IOUT {i} {t} " + ' '.join(f"{ATTR[a]} {tok(v)}" for a, v in dd.get('e', {}).items()))
         for eid, attrs in run.init_persist.get(s, {}).items():
+            if is_mirror(eid): continue
             for a, m in attrs.items():
                 for srcfull, v in m.items():
                     L.append(f"S_IPERS {i} {ATTR[a]} {idx[srcfull.split('.')[0]]}" + ("" if v is None else f" {tok(v)}"))
@@ -294,6 +333,10 @@ def validate(run, case, model, lazy=True, cache=True, tables_from='model') -> Va
             if r.startswith('err'): v.disc.append(dict(kind='model_err:' + r.split()[1], at=at, detail=r)); break
         elif k == 'BEGIN':
             _, sid, tiers, maxadv, inputs = l
+            for (meid, mgot, mbase) in mirror_diffs(inputs)[:1]:
+                v.disc.append(dict(kind='mirror', at=at, detail=f'{sid}@{tiers}: entity {meid} is given {mgot}, entity e {mbase}'))
+            if case.get('mirror') and sorted(k_ for k_ in inputs if is_mirror(k_)) != sorted(f'm{k_}' for k_ in range(1, case['mirror'] + 1)) and inputs.get('e'):
+                v.disc.append(dict(kind='mirror', at=at, detail=f'{sid}@{tiers}: inputs for entities {sorted(inputs)} (mirror entities expected: {case["mirror"]})'))
             obs = canon_inputs(inputs, idx, tok)
             v.begins.append((at, sid, tiers, maxadv, obs))
             r = send(f"BEGIN {idx[sid]} {simlib.tm(tiers)}", at)
